@@ -9,8 +9,8 @@ T = {
  "C01": (True, "reference-model monitor (M-scale∘M-prop) over generated keyframe sets evaluated on real derive/builder timelines",
          "Runtime monitoring: thousands (quick) to hundreds of thousands (thorough) of real timelines are built through the public builder from generated keyframe sets and every evaluated property is compared with an independent executable model of CSS keyframe interpolation; a small scope is enumerated exhaustively. Held = no disagreement on the executions observed.",
          "Trusts rustc/std f32 arithmetic; easing curves are uninterpreted (C13); timing restricted to the dyadic exact regime (C03 covers inexact timing).", "§4 C01"),
- "C02": (True, "analytic-oracle monitor at exact keyframe/boundary instants in the dyadic exact regime",
-         "Runtime monitoring of real timelines at times that map exactly onto every keyframe position of every property in every cycle, onto the delay, the end of each forward pass and times at/after the total duration; oracle = the keyframe / 0 % / 100 % / terminal value (ints exact, floats <= 4 ulp, terminal bits constant).",
+ "C02": (True, "analytic-oracle monitor at exact keyframe/boundary instants in the dyadic exact regime, plus off-grid timing judged well after the end / inside the delay",
+         "Runtime monitoring of real timelines at times that map exactly onto every keyframe position of every property in every cycle, onto the delay, the end of each forward pass and times at/after the total duration; oracle = the keyframe / 0 % / 100 % / terminal value (ints exact, floats <= 4 ulp, terminal bits constant). A second stream uses cycles off the dyadic grid (0.1 s, 0.7 s, ...) and judges only well after the end and well inside the delay.",
          "Only configurations whose f32 intermediates are exact are generated; ambiguous cases (same property twice at a position) are never judged.", "§4 C02"),
  "C03": (True, "exhaustive/dense sweep of the f32 time axis against an f64 model with boundary bands + bit-exact dyadic grid relations",
          "Runtime monitoring of TimeScale::get_position and of Timeline::update on a linear probe over every f32 bit pattern (thorough) / stride-61 + all floats within 4096 ulp of each phase boundary (quick) for fixed and random timing configurations; bit-exact comparison, periodicity and mirror relations on a dyadic grid; metadata accessors tied to observed behaviour.",
@@ -19,14 +19,14 @@ T = {
          "Runtime monitoring: all histories to depth 5 (quick) / 7 (thorough) over a 10-operation alphabet on a pool of animator configurations plus random long histories with probe suffixes; current_values must be bit-identical immediately before and after every set_state, and a twin that never receives set_state(current) must follow the identical trajectory.",
          "Model-free; bit equality identifies +0.0 and -0.0; values are f32-representable.", "§4 C04"),
  "C05": (True, "history + executable model (M-anim with twin timelines) compared after every operation",
-         "Runtime monitoring: the same exploration engine as C04; after every operation current_state, current_values (bit-exact) and is_ended are compared with the M-anim reference model of blend/pause/resume; the hook snapshot is logged as a diagnostic only.",
+         "Runtime monitoring: the same exploration engine as C04; after every operation current_state, current_values (bit-exact) and is_ended are compared with the M-anim reference model of blend/pause/resume (bit-exact at the model's own f32 reading of the time in state, else at a neighbouring f32 reading within float rounding); the hook snapshot is logged as a diagnostic only.",
          "M-anim delegates timeline evaluation to twin instances of the real timelines (C09/C10/C12 decide those).", "§4 C05"),
  "C06": (True, "relational monitor between real animators over all step compositions of each interval",
-         "Runtime monitoring: every composition of each inter-transition interval (2^(m-1) schedules, m <= 9 quick / 12 thorough), with and without interleaved zero-length advances, must give values, state and is_ended bit-identical to the single-step run; inexact f32 splits are compared against an envelope of single-step runs.",
+         "Runtime monitoring: every composition of each inter-transition interval (2^(m-1) schedules, m <= 9 quick / 12 thorough), with and without interleaved zero-length advances, must give values, state and is_ended bit-identical to the single-step run; inexact f32 splits are compared against an envelope of single-step runs; same-frame transitions with inserted zero-length advances; Times(n) timelines off the dyadic grid delivered cycle by cycle / at once / in halves must agree well after their end.",
          "Grid units convert to Duration exactly; envelope cases that straddle a discontinuity are counted as inconclusive_band.", "§4 C06"),
- "C07": (True, "history monitor with totals computed from the configuration; terminal values from twin timelines",
+ "C07": (True, "history monitor with totals and terminal values computed from the configuration, cross-checked with twin timelines",
          "Runtime monitoring of is_ended and current_values across advances that land exactly on, just before, just after and far beyond the total duration (on- and off-grid configurations, merged and infinite components), followed by 50 further advances: exactness, monotonicity, never-ended-when-infinite, values resting at the terminal values.",
-         "Off-grid: 2 ulp band at the end instant.", "§4 C07"),
+         "Where cycle, delay, cycle x (repeats+1), the advances or the f32 reading of the time are not exact, a band of 2 ulp (+1 ns per advance) around the end instant accepts either answer.", "§4 C07"),
  "C08": (True, "sentinel bit-pattern monitor on targets and animator values",
          "Runtime monitoring: targets pre-filled with random bit patterns (NaN payloads included) are compared bit-for-bit after update in every phase for every field outside the animated-and-keyframed set (excluded fields, un-keyframed properties, empty and merged timelines), and across animator histories.",
          "The animated-and-keyframed set is computed from the generated specification.", "§4 C08"),
@@ -58,8 +58,8 @@ T = {
          "Runtime monitoring of generated programs: 120 (quick) / 1500 (thorough) struct shapes (field counts/types, #[animate] subsets, visibilities, local and remote proxies) are compiled for real; per shape the C01 model oracle, the untouched-field sentinel oracle, keyframe_from and the four accessors are checked, and setters for non-animated fields must be rejected by the compiler.",
          "Same assumptions as C01; private shapes cannot be probed from outside their module in the compile-fail crate.", "§4 C17"),
  "C18": (True, "trace-invariant monitor over exhaustive and random frame/operation schedules in a real bevy App with a hand-driven clock",
-         "Runtime monitoring of the real plugin: every frame-delta history of length 6 (quick) / 8 (thorough) over {0, 1/512 s, 1/8 s, 64 s} for 38 timelines, every (operation, delta) history of length 4/5, and random 50-300 frame histories (one or two animated components, 4 registration orders, single- and multi-threaded executor); invariants 1-8 checked after every frame.",
-         "bevy 0.11.3 App/Time/Events trusted; after a hot set_timeline only invariants 1,2,3,7,8 are demanded until the next reset.", "§4 C18"),
+         "Runtime monitoring of the real plugin: every frame-delta history of length 6 (quick) / 8 (thorough) over {0, 1/512 s, 1/8 s, 64 s} for 41 timelines (3 of them off the dyadic grid), every (operation, delta) history of length 4/5, and random 50-300 frame histories (one or two animated components, 4 registration orders, single- and multi-threaded executor, animators built through every public constructor); invariants 0-8 checked after every frame.",
+         "bevy 0.11.3 App/Time/Events trusted; after a hot set_timeline only invariants 1,2,3,7,8 are demanded until the next reset; the f32 reading of a position may be as_secs_f32() or the correctly rounded one; off-grid timelines carry a 2 ulp band at their total.", "§4 C18"),
  "C19": (True, "online trace-specification checker with candidate model states (nondeterministic system order / race outcome) over exhaustive and random histories in a real bevy App",
          "Runtime monitoring of selector/chain: every history of length 4 (quick) / 5 (thorough) over {no-op, assign 4 keys} x 4 frame deltas for 30 configurations (chains with cycles/self-loops/missing entries, second animated component) plus random long histories; each frame must be explained by the specification under some system order and race outcome.",
          "chain/select are mutually unordered in mina's registration, so either order is accepted; the explicit-assignment race accepts both documented outcomes.", "§4 C19"),
